@@ -293,3 +293,25 @@ func asStructOpt(o Options) *jsonopts.Struct {
 //@ requires d != nil
 //@ modifies d.s.decodeBuffer.buf
 //@ ensures dropped: len(d.s.buf) == 0 && cap(d.s.buf) == 0
+
+// Encoder.Reset / Decoder.Reset: under the negation of the three documented
+// misuse conditions (nil coder, nil writer/reader, called from within a
+// MarshalJSONTo/UnmarshalJSONFrom call) no panic is reachable; the coder is
+// reset as by encoderState.reset, and a buffer that aliased a previous
+// bytes.Buffer is not reused.
+//
+//@ func (*Encoder).Reset
+//@ property C17 C18 C20
+//@ requires e != nil && w != nil && !e.s.Flags.Get(jsonflags.WithinArshalCall)
+//@ requires vForall(0, len(opts), func(i int) bool { return isStructOpt(opts[i]) ==> asStructOpt(opts[i]) != nil })
+//@ modifies e.s.state.Tokens.Stack, e.s.state.Tokens.Last, e.s.state.Names.offsets, e.s.state.Names.unquotedNames, e.s.state.Namespaces, e.s.encodeBuffer.Buf, e.s.encodeBuffer.baseOffset, e.s.encodeBuffer.wr, e.s.encodeBuffer.maxValue, e.s.encodeBuffer.availBuffer, e.s.encodeBuffer.bufStats, e.s.Struct
+//@ ensures fresh: len(e.s.Tokens.Stack) == 0 && e.s.Tokens.Last == stateTypeArray && e.s.baseOffset == 0 && e.s.wr == w && len(e.s.Buf) == 0
+//@ ensures no-alias: old(isBytesBufferW(e.s.wr)) && !isBytesBufferW(w) ==> cap(e.s.Buf) == 0
+
+//@ func (*Decoder).Reset
+//@ property C17 C18 C20
+//@ requires d != nil && r != nil && !d.s.Flags.Get(jsonflags.WithinArshalCall)
+//@ requires vForall(0, len(opts), func(i int) bool { return isStructOpt(opts[i]) ==> asStructOpt(opts[i]) != nil })
+//@ modifies d.s.state.Tokens.Stack, d.s.state.Tokens.Last, d.s.state.Names.offsets, d.s.state.Names.unquotedNames, d.s.state.Namespaces, d.s.decodeBuffer.peekPos, d.s.decodeBuffer.peekErr, d.s.decodeBuffer.buf, d.s.decodeBuffer.prevStart, d.s.decodeBuffer.prevEnd, d.s.decodeBuffer.baseOffset, d.s.decodeBuffer.rd, d.s.Struct
+//@ ensures fresh: len(d.s.Tokens.Stack) == 0 && d.s.Tokens.Last == stateTypeArray && d.s.baseOffset == 0 && d.s.prevStart == 0 && d.s.prevEnd == 0 && d.s.peekPos == 0 && d.s.rd == r && len(d.s.buf) == 0
+//@ ensures no-alias: old(isBytesBuffer(d.s.rd)) ==> cap(d.s.buf) == 0
